@@ -201,7 +201,9 @@ impl Wrap {
     pub fn by_value_only(self) -> bool {
         matches!(self, Wrap::WithDims | Wrap::NoCloseArc | Wrap::RealCow)
     }
-    /// the forwarding impl in the way does not override `sample_group` (metrique-core close_value_impls.rs)
+    /// the two forwarding impls of metrique-core's close_value_impls.rs, which did not override
+    /// `sample_group` before fix 1af396b; only used to *classify* a regression of that fix
+    /// (`naming:sample-group-dropped-by-wrapper`)
     pub fn drops_sample_group(self) -> bool {
         matches!(self, Wrap::ForceFlag | Wrap::WithDims)
     }
